@@ -182,3 +182,4 @@ pub mod c21;
 pub mod c15;
 pub mod c19;
 pub mod bundle;
+pub mod c25;
